@@ -11,7 +11,7 @@
 //!       prefill_mode: 0 none | 1 n one-byte units | 2 full (one-byte units) | 3 n empty datagrams
 //!                     | 4 full of empty datagrams
 //!       bufsize: 0 default | pipes: F_SETPIPE_SZ | sockets: SO_SNDBUF
-//!       ops: 1 generic sig ch | 5 sig n | 3 ch n | 4 id | 6 (descriptor-number reuse probe, last)
+//!       ops: 1 generic sig ch | 5 sig n | 7 sig n (as 5, errno preset to a stale EINTR/EAGAIN) | 3 ch n | 4 id | 6 (descriptor-number reuse probe, last)
 //!   prints (prefix `<hid>`):
 //!     C ch cap npre prelen        capacity in units measured on an identically built sibling
 //!     1 outcome fd_open nonblock  outcome: 0 ok 1 err 2 panic
@@ -335,11 +335,17 @@ fn run_history(hid: &str, v: &[i64]) -> i32 {
                     println!("{} 1 {} {} {}", hid, outcome, fd_open(fd), nb);
                     regs.push((fd, id, ch));
                 }
-                5 => {
+                5 | 7 => {
+                    // 7: the interrupted code's errno is a stale EINTR / EAGAIN when the signal arrives (the state
+                    // of any poll- or read-loop after an interruption); what the delivery does may not depend on it
+                    let stale = v[p] == 7;
                     let (sig, n) = (v[p + 1] as i32, v[p + 2]);
                     p += 3;
                     let t0 = Instant::now();
-                    for _ in 0..n {
+                    for k in 0..n {
+                        if stale {
+                            *libc::__errno_location() = if k % 2 == 0 { libc::EINTR } else { libc::EAGAIN };
+                        }
                         libc::raise(sig);
                     }
                     println!("{} 5 {} {}", hid, n, t0.elapsed().as_millis());
@@ -440,7 +446,7 @@ fn run() -> i32 {
             while p < v.len() {
                 match v[p] {
                     1 => p += 4,
-                    5 => {
+                    5 | 7 => {
                         total += v[p + 2];
                         p += 3
                     }
